@@ -250,6 +250,22 @@ C06_Empty(c) == (IsEmptyMp(val[c.x]) \/ IsEmptyMp(val[c.y])) =>
                    [] c.op = "diff" -> RegionEq(c.mp, val[c.x])
                    [] OTHER -> IsEmptyMp(c.mp)
 C06_DisjointBoxes(c) == Trivial(c) => c.mp = TrivialResult(c)
+\* "... or merely touching bounding boxes": the boxes meet in a line or a point only, so the operands'
+\* interiors are disjoint and the result is the obvious combination - as a REGION read polygon by
+\* polygon and as a valid polygon set (a part attached as a hole of the polygon it touches has the
+\* right even-odd reading and the wrong polygon reading)
+BoxesTouchOnly(c) ==
+  LET X == EdgesOfName(c.x)  Y == EdgesOfName(c.y) IN
+  X # {} /\ Y # {} /\ ~Trivial(c) /\
+  LET bx == BBox(EndPts(X))  by == BBox(EndPts(Y))
+  IN bx[3] = by[1] \/ by[3] = bx[1] \/ bx[4] = by[2] \/ by[4] = bx[2]
+C06_TouchingBoxes(c, extra) == (BoxesTouchOnly(c) /\ Depth1(c)) => (RegionOK(c, extra) /\ C02_PolygonSetValid(c))
+\* C12, second half over EQUAL operands: two calls whose operands are equal as values (PartialEq: -0.0 = 0.0)
+\* although they are different objects with different bits return equal results
+C12_EqualOperands(c, d) ==
+  (d.op = c.op /\ d.F = c.F /\ d.px = c.px /\ d.py = c.py /\ <<d.x, d.y>> # <<c.x, c.y>> /\ ~OpaqueCall(c) /\ ~OpaqueCall(d)
+     /\ meta[d.x].frame = meta[c.x].frame /\ meta[d.y].frame = meta[c.y].frame /\ val[d.x] = val[c.x] /\ val[d.y] = val[c.y]) =>
+     (d.outcome = c.outcome /\ d.mp = c.mp)
 
 \* ------------------------------------------------ laws relating two calls
 OkPair(c, d) == c.outcome = "ok" /\ d.outcome = "ok"
@@ -322,7 +338,7 @@ Violated(c) ==
       lg == Append(log, c)
       pair(L(_, _)) == \A k \in 1..Len(log) : L(c, log[k])
       v03 == IF "C03" \in Laws /\ un /\ ~C03_Returns(c) THEN {"C03"} ELSE {}
-      v12 == IF "C12" \in Laws /\ (~C12_OperandsUntouched(c) \/ ~pair(C12_Deterministic)) THEN {"C12"} ELSE {}
+      v12 == IF "C12" \in Laws /\ (~C12_OperandsUntouched(c) \/ ~pair(C12_Deterministic) \/ ~pair(C12_EqualOperands)) THEN {"C12"} ELSE {}
       big == BigCall(c)
       fw == FloatCall(c) /\ ok /\ un
       vfh == IF FloatCall(c) /\ ~FClaimsHonest(c) THEN {"HARNESS"} ELSE {}
@@ -344,7 +360,7 @@ Violated(c) ==
                                       \/ (fw /\ Depth1(c) /\ ~C01_WitnessF(c))) THEN {"C01"} ELSE {}
       v11 == IF "C11" \in Laws /\ ((geo /\ ~Depth1(c) /\ ~RegionOK(c, extra)) \/ (fw /\ ~Depth1(c) /\ ~C01_WitnessF(c))) THEN {"C11"} ELSE {}
       v02 == IF "C02" \in Laws /\ ((geo /\ ~C02_PolygonSetValid(c)) \/ (fw /\ ~C02_WitnessF(c))) THEN {"C02"} ELSE {}
-      v06 == IF "C06" \in Laws /\ ok /\ un /\ ~OpaqueCall(c) /\ ~((big \/ (C06_Self(c) /\ C06_Empty(c))) /\ C06_DisjointBoxes(c) /\ pair(C06_Commutes)) THEN {"C06"} ELSE {}
+      v06 == IF "C06" \in Laws /\ ok /\ un /\ ~OpaqueCall(c) /\ ~((big \/ (C06_Self(c) /\ C06_Empty(c) /\ (~(c04 \/ AllIntegral(allE)) \/ C06_TouchingBoxes(c, extra)))) /\ C06_DisjointBoxes(c) /\ pair(C06_Commutes)) THEN {"C06"} ELSE {}
       v07 == IF "C07" \in Laws /\ ~OpaqueCall(c) /\ ~pair(C07_RepresentationInvariant) THEN {"C07"} ELSE {}
       v08 == IF "C08" \in Laws /\ ~big /\ ~pair(C08_TransformCommutes) THEN {"C08"} ELSE {}
       v09 == IF "C09" \in Laws /\ ~big /\ ~pair(C09_FarPartLocal) THEN {"C09"} ELSE {}
